@@ -3,5 +3,6 @@ pub mod engine;
 pub mod graph;
 pub mod hist;
 pub mod props;
+pub mod rechash;
 pub mod refsys;
 pub mod runner;
